@@ -76,6 +76,13 @@ pub fn short_loc(s: &str) -> String {
             return s[i..].to_string();
         }
     }
+    // dependency sources: drop the machine-specific registry prefix
+    if let Some(i) = s.find("/registry/src/") {
+        let rest = &s[i + "/registry/src/".len()..];
+        if let Some(j) = rest.find('/') {
+            return rest[j + 1..].to_string();
+        }
+    }
     s.to_string()
 }
 
